@@ -17,7 +17,7 @@ RULES = {
            "sequence hash. One sanitizer report ends a worker; it is restarted behind the failing case.",
     "C18": "seeded cases: 3-6 start/stop runs per camera with a consumer thread (get_frame loop), a trigger thread (paced "
            "or bursts) and the stopping thread; software trigger on/off per run, reconfiguration between runs incl. "
-           "enable->disable->enable, a quarter of the later runs started again without any set; random delays injected at the camera's own lock/wait/sleep calls. Oracle: ids strictly "
+           "enable->disable->enable, a quarter of the later runs started again without any set, a fifth of the runs with the same settings applied again while live; random delays injected at the camera's own lock/wait/sleep calls. Oracle: ids strictly "
            "increase within a run; with triggering: frames delivered <= triggers issued (counter bumped before the call), "
            "no frame with zero triggers, id < triggers issued since start (ids count generated frames and restart at 0); "
            "(free-running ids far ahead of elapsed/exposure are counted as information only); stop returns and releases a pending get_frame "
@@ -104,8 +104,8 @@ def run(prop, tier, replay=None):
     tot = vlib.merge_counts(summaries, skip=("distinct",))
     distinct = len(vlib.read_hashes(hashes))
     shutil.rmtree(tmp, ignore_errors=True)
-    need = ["cases_with_binning", "clamped_requests", "max_shape_requests", "reconfigurations", "frames", "rejected_sets"] if prop == "C17" \
-        else ["trigger_runs", "stops_with_pending_get_frame", "restart_checks", "restarts_without_set", "timebound_checks", "frames", "failed_frame_calls"]
+    need = ["cases_with_binning", "clamped_requests", "max_shape_requests", "reconfigurations", "frames", "rejected_sets", "live_sets"] if prop == "C17" \
+        else ["trigger_runs", "stops_with_pending_get_frame", "restart_checks", "restarts_without_set", "live_sets", "timebound_checks", "frames", "failed_frame_calls"]
     for k in need:
         if not tot.get(k):
             chk.fail("required event class never observed: %s" % k)
